@@ -74,6 +74,48 @@ func innerObjects(kind string, parent *Node, key string) []*Node {
 	return out
 }
 
+// wrapperDeletions: all copies of v (the value of a [][]struct or []map[string][]struct field)
+// with one element / entry of one of the `levels` container levels removed, or one deletion
+// inside one of the struct objects below them.
+func wrapperDeletions(v *Node, levels int, inner *StructSpec) []*Node {
+	var out []*Node
+	if levels == 0 {
+		if v.K == "obj" {
+			return deletions(inner, v)
+		}
+		return nil
+	}
+	switch v.K {
+	case "arr":
+		for i := range v.A {
+			c := v.clone()
+			c.A = append(c.A[:i:i], c.A[i+1:]...)
+			out = append(out, c)
+		}
+		for i := range v.A {
+			for _, sub := range wrapperDeletions(v.A[i], levels-1, inner) {
+				c := v.clone()
+				c.A[i] = sub
+				out = append(out, c)
+			}
+		}
+	case "obj":
+		for i := range v.O {
+			c := v.clone()
+			c.O = append(c.O[:i:i], c.O[i+1:]...)
+			out = append(out, c)
+		}
+		for i := range v.O {
+			for _, sub := range wrapperDeletions(v.O[i].V, levels-1, inner) {
+				c := v.clone()
+				c.O[i].V = sub
+				out = append(out, c)
+			}
+		}
+	}
+	return out
+}
+
 // countNodes: size of a document value (used to recognise a wrapper around a single struct).
 func countNodes(n *Node) int {
 	c := 1
@@ -180,6 +222,14 @@ func deletions(spec *StructSpec, doc *Node) []*Node {
 						out = append(out, with(c))
 					}
 				}
+			}
+		case f.Kind == kStructSlice2 || f.Kind == kDeep:
+			levels := 2
+			if f.Kind == kDeep {
+				levels = 3
+			}
+			for _, nv := range wrapperDeletions(v, levels, f.Inner) {
+				out = append(out, with(nv))
 			}
 		case f.Kind == kStructMap && v.K == "obj":
 			for i := range v.O {
@@ -326,13 +376,14 @@ func candidates(c *Case) []*Case {
 			}
 		}
 	}
-	// nested sequence -> its element kind with the first inner value ([][]T [[v..]] -> T/[]T)
+	// nested sequence -> flat kind: [][]T / []map[string][]T with value v becomes []string with
+	// v itself, with v's first inner list, or T with the first leaf ([][]int [[x]] -> int x)
 	for i, f := range c.Spec.Fields {
+		nested := f.Kind == kIntSlice2 || f.Kind == kStrSlice2 || f.Kind == kMapSlice2 || f.Kind == kStructSlice2 || f.Kind == kDeep
 		v, ok := c.Doc.get(f.Key())
-		if !ok || v.K != "arr" || len(v.A) == 0 || v.A[0].K != "arr" {
+		if !nested || !ok || v.K != "arr" {
 			continue
 		}
-		first := v.A[0]
 		try := func(kind string, nv *Node) {
 			s := c.Spec.clone()
 			s.Fields[i].Kind, s.Fields[i].Inner = kind, nil
@@ -340,15 +391,23 @@ func candidates(c *Case) []*Case {
 			setMember(d, f.Key(), nv)
 			mk(s, d, c.Variant)
 		}
-		switch f.Kind {
-		case kStrSlice2:
-			try(kStrSlice, first)
-		case kIntSlice2:
-			if len(first.A) > 0 {
+		try(kStrSlice, v)
+		if len(v.A) == 0 {
+			continue
+		}
+		first := v.A[0]
+		if first.K == "obj" && len(first.O) > 0 && first.O[0].V.K == "arr" {
+			try(kStrSlice, first.O[0].V)
+		}
+		if first.K != "arr" {
+			continue
+		}
+		try(kStrSlice, first)
+		if len(first.A) > 0 {
+			switch f.Kind {
+			case kIntSlice2:
 				try(kInt, first.A[0])
-			}
-		case kMapSlice2:
-			if len(first.A) > 0 {
+			case kMapSlice2:
 				try(kIntMap, first.A[0])
 			}
 		}
@@ -653,6 +712,7 @@ func classify(c *Case) *classified {
 	classMemo.Store(k, cl)
 	return cl
 }
+
 // ---- shape / class key --------------------------------------------------------------------------
 
 func fieldLabel(f FieldSpec) string {
@@ -742,7 +802,52 @@ func fieldShape(f FieldSpec, parent *Node) string {
 			}
 		}
 	}
+	if f.Kind == kStructSlice2 || f.Kind == kDeep {
+		levels := 2
+		if f.Kind == kDeep {
+			levels = 3
+		}
+		if sh, ok := wrapperShape(v, levels, f.Inner); ok {
+			return l + sh
+		}
+	}
 	return l + "=" + valueCat(v)
+}
+
+// wrapperShape: shape of a well-formed nested value down to the struct objects.
+func wrapperShape(v *Node, levels int, inner *StructSpec) (string, bool) {
+	if levels == 0 {
+		if v.K != "obj" {
+			return "", false
+		}
+		return "{" + structShape(inner, v) + "}", true
+	}
+	var es []string
+	switch v.K {
+	case "arr":
+		for _, e := range v.A {
+			sh, ok := wrapperShape(e, levels-1, inner)
+			if !ok {
+				return "", false
+			}
+			es = append(es, sh)
+		}
+		return "[" + strings.Join(es, ",") + "]", true
+	case "obj":
+		for _, e := range v.O {
+			sh, ok := wrapperShape(e.V, levels-1, inner)
+			if !ok {
+				return "", false
+			}
+			k := "k"
+			if e.Key != strings.ToLower(e.Key) {
+				k = "K"
+			}
+			es = append(es, k+":"+sh)
+		}
+		return "{" + strings.Join(es, ",") + "}", true
+	}
+	return "", false
 }
 
 // restrictTo: the members of parent that belong to the embedded struct's fields.
@@ -757,6 +862,11 @@ func restrictTo(parent *Node, inner *StructSpec) *Node {
 }
 
 func classOf(c *Case) string {
+	if c.Check == "case" {
+		// one cause key per shape: which re-spelling changes the result, and in which direction,
+		// is in the description, not in the key
+		return "case:respelled-keys-change-result:" + structShape(plainNames(c.Spec), lowerFieldKeys(c.Doc))
+	}
 	cls := c.Check + ":" + c.Sig
 	if c.Check != "case" && c.Variant != 0 {
 		// the failure needs re-spelled keys; which spelling (and the spelling of the tag) is
